@@ -86,6 +86,8 @@ var registry = map[string]propDef{
 	"C13":  {"other", props.C13},
 	"C17":  {"other", props.C17},
 	"C17p": {"other", props.C17pool},
+	"C17h": {"other", props.C17handle},
+	"C18h": {"other", props.C17handle},
 	"C14v": {"other", props.C14valid},
 	"C14t": {"other", props.C14types},
 	"C14b": {"other", props.C14bristol},
